@@ -23,7 +23,8 @@ EXPLANATION = (
     "the vendored zlib.h; validation constants of deflateInit2/inflateReset2/inflatePrime/deflatePrime/deflateParams equal zlib-ng's "
     "([-15,-8]/[8,15]/+16 window bits, memLevel 1..9, level -1->6 and 0..9, windowBits 8 -> 9 only for zlib wrapping, prime limits). "
     "Call-order semantics and data movement are not decided. "
-    "ATOM/validation deflateParams:flush-error: the internal Z_BLOCK flush aborts deflateParams only on Z_STREAM_ERROR (zlib-ng text). SIB/ref-writes for the API functions with a zlib-ng body (Params, Tune, Prime, Sync, SetDictionary, ResetKeep, Reset2).")
+    "ATOM/validation deflateParams:flush-error: the internal Z_BLOCK flush aborts deflateParams only on Z_STREAM_ERROR (zlib-ng text). SIB/ref-writes for the API functions with a zlib-ng body (Params, Tune, Prime, Sync, SetDictionary, ResetKeep, Reset2). "
+    "SIB/ref-conditions: the elementary conditions and calls of the zlib-ng functions this code was ported from (oracles/condparity.json, frozen from the vendored C sources) keep a counterpart in the paired zlib-rs function. (API functions: Params, Init2, SetDictionary, Prime, Bound, ResetKeep, inflate Reset2/Init2/SetDictionary/Prime/Sync/SyncPoint/GetHeader, inflate, deflate).")
 
 CLAIM = dict(
     text="Static intraprocedural null-taint over MIR for all 129 pointer parameters of the C ABI, fallible-conversion and "
